@@ -606,6 +606,17 @@ def eval_ops(case):
             fails.append(('property', sig, f'shape {shape} for a sector of dimension {d} qconj={leg.qconj} sector={qt.tolist()}'))
             continue
         chk(f'flat.matvec.{tagc}', got, M2s @ vs)
+        try:     # an operator may map a vector to exactly zero (no stored block in the npc result)
+            Z = sparse.FlatLinearOperator(lambda vec: vec * 0.0 if False else npc.zeros(vec.legs, vec.dtype, vec.qtotal, labels=vec.get_leg_labels()),
+                                          leg, H2.dtype, charge_sector=qt, compact_flat=compact)
+            z = Z.matvec(x_s)
+            if np.linalg.norm(z) != 0 or z.shape != (d,):
+                fails.append(('property', f'flat.{tagc}.zero-result-wrong', f'{z!r}'))
+        except AssertionError as e:
+            fails.append(('property', 'flat.matvec.raises-when-the-result-is-exactly-zero', f'{tagc}: AssertionError in npc_to_flat'))
+        except Exception as e:  # noqa
+            if not (leg.qconj == -1 and np.any(qt)):
+                fails.append(('property', f'flat.{tagc}.zero-result-raises', f'{type(e).__name__}: {str(e)[:80]}'))
         chk('flat.roundtrip', back, vs)
         chk('flat.flat_to_npc', emb, v)
     if leg.is_blocked():     # all sectors at once (needs a 1:1 map block <-> charge)
